@@ -5,7 +5,7 @@ use syn::{DeriveInput, Path, Type};
 pub(crate) fn create_debug_map_builder() -> proc_macro2::TokenStream {
     quote!(
         #[allow(non_camel_case_types)] // We're using __ to help avoid clashes.
-        struct Educe__RawString(&'static str);
+        struct Educe__RawString(&'static ::core::primitive::str);
 
         impl ::core::fmt::Debug for Educe__RawString {
             #[inline]
